@@ -98,8 +98,21 @@ CLAIMS = {
         note="Concurrent deliveries are not modelled: lock_ex is assumed to give mutual exclusion. Content of the copied "
              "message rests on the substdio/getln contracts. The sender-sanitising loop in main is not covered.",
         design_ref="DESIGN.md section 5 C12"),
+    "C11": dict(
+        text="Proof (CBMC) on the unmodified qmail-lspawn.c: child branch of spawn(): execv is reached only after "
+             "setgroups(1,&gid), setgid(gid), setuid(uid) succeeded in that order with the uid/gid fields of the assignment "
+             "record, after the real-uid root test, with user/home/dash/ext/local/host/sender/default passed in the documented "
+             "positions; a short record is refused. nughde_get() table part (loop contract, local parts of any length < 1023): "
+             "exact key first, then successively shorter prefixes only at wildcard terminators (or the catch-all), none "
+             "skipped, first hit wins, unmatched original-case tail appended, any cdb error exits QLX_CDB (deferral) and never "
+             "falls through to the password file. report(): K only for exit 0, every lookup/database code defers. cdb "
+             "primitives: cdb_unpack(cdbmake_pack(x)) = x for all x; cdb_hash = fold of cdbmake_hashadd (keys <= 12 bytes, bounded).",
+        note="What the table contains is configuration (cdb_seek is an oracle in nughde_get). NOT covered: the whole-file "
+             "agreement of the database compiler with the reader (cdbmake_split/throw ordering, 'first duplicate wins' - the "
+             "bounded attempt did not terminate, see DESIGN), qmail-getpw and qmail-pw2u.",
+        design_ref="DESIGN.md section 5 C11"),
 }
 
 NOT_APPLICABLE = {p: PENDING for p in
-                  ["C02", "C03", "C04", "C10", "C11", "C13", "C14",
+                  ["C02", "C03", "C04", "C10", "C13", "C14",
                    "C16", "C17", "C19", "C20"]}
